@@ -358,6 +358,11 @@ type c45StepCase struct {
 	Init   int64    `json:"init"`            // InitialDemand
 	Refill int64    `json:"refill"`          // RefillThreshold
 	Script []c45Msg `json:"script"`
+	// parallel stage (kind "par"): ordered?, workers, x -> A*x+B; "worker" messages release one task
+	Ordered bool  `json:"ordered,omitempty"`
+	W       int   `json:"w,omitempty"`
+	A       int64 `json:"a,omitempty"`
+	B       int64 `json:"b,omitempty"`
 }
 
 type c45StepObs struct {
@@ -440,9 +445,54 @@ func c45Snap(a actor.Actor) []int64 {
 		return []int64{x.credit}
 	case *pullSourceActor:
 		return []int64{}
+	case *parallelMapActor[any, any]:
+		return []int64{x.inFlight, int64(x.inputSeqNo), int64(x.nextEmit), int64(len(x.pending)), b2i(x.upstreamDone)}
 	}
 	return nil
 }
+
+// c45Gates lets the driver decide when (and so in which order) the workers of a parallel stage finish.
+type c45Gates struct {
+	mu sync.Mutex
+	ch map[int64]chan struct{}
+}
+
+func (g *c45Gates) gate(v int64) chan struct{} {
+	g.mu.Lock()
+	defer g.mu.Unlock()
+	if g.ch == nil {
+		g.ch = map[int64]chan struct{}{}
+	}
+	c, ok := g.ch[v]
+	if !ok {
+		c = make(chan struct{})
+		g.ch[v] = c
+	}
+	return c
+}
+
+func (g *c45Gates) release(v int64) {
+	c := g.gate(v)
+	select {
+	case <-c:
+	default:
+		close(c)
+	}
+}
+
+func (g *c45Gates) releaseAll() {
+	g.mu.Lock()
+	defer g.mu.Unlock()
+	for _, c := range g.ch {
+		select {
+		case <-c:
+		default:
+			close(c)
+		}
+	}
+}
+
+var c45CurrentGates *c45Gates
 
 func c45StageUnderTest(c c45StepCase, items *[]any, completions *atomic.Int64) (actor.Actor, error) {
 	cfg := defaultStageConfig()
@@ -472,6 +522,14 @@ func c45StageUnderTest(c c45StepCase, items *[]any, completions *atomic.Int64) (
 		scfg := fused[1].config
 		scfg.InitialDemand, scfg.RefillThreshold = c.Init, c.Refill
 		return fused[1].actorFn(scfg), nil
+	case "par":
+		gates := &c45Gates{}
+		c45CurrentGates = gates
+		return newParallelMapActor[any, any](max(c.W, 1), func(v any) any {
+			x := v.(int64)
+			<-gates.gate(x)
+			return c.A*x + c.B
+		}, c.Ordered, cfg), nil
 	case "sink":
 		return newSinkActor(func(v any) error { *items = append(*items, v); return nil },
 			func() { completions.Add(1) }, cfg), nil
@@ -532,6 +590,9 @@ func c45RunSteps(t testing.TB, sys actor.ActorSystem, c c45StepCase) c45StepResu
 			return nil, false
 		}
 	}
+	if c.Kind == "par" {
+		defer c45CurrentGates.releaseAll()
+	}
 	wire := &stageWire{subID: "s", upstream: ppid, downstream: ppid}
 	if c.Kind == "source" {
 		wire.upstream = nil
@@ -561,6 +622,17 @@ func c45RunSteps(t testing.TB, sys actor.ActorSystem, c c45StepCase) c45StepResu
 		if wrap.stopped.Load() {
 			// a stopped actor handles nothing: dead letter
 			res.Steps = append(res.Steps, c45StepObs{Alive: false})
+			continue
+		}
+		if m.T == "worker" {
+			// let the worker holding this task finish; its parallelResult is the next message the stage handles
+			c45CurrentGates.release(int64(m.V.(float64)))
+			select {
+			case st := <-wrap.stepped:
+				res.Steps = append(res.Steps, c45StepObs{Alive: !wrap.stopped.Load(), State: st, Out: drain()})
+			case <-time.After(5 * time.Second):
+				res.Steps = append(res.Steps, c45StepObs{Alive: !wrap.stopped.Load(), State: []int64{-999}})
+			}
 			continue
 		}
 		st, ok := send(msg)
